@@ -10,6 +10,9 @@
 //!       fresh nodes, fabric id = the one of `dnoc`; `droot` = root installed on the device if it
 //!       differs from the controller's (`root`); `ckey=<k>` / `dkey=<k>`: the node signs with pool key
 //!       `k` instead of the key its NOC certifies.
+//!       `cpnoc=<rec> cpicac=<rec|->` / `dpnoc= dpicac=`: the node is installed as above (identity, destination id)
+//!       but PRESENTS these certificates in the handshake and signs with their key (hook `Fabric::verif_present_certs`):
+//!       a dishonest peer answering for one fabric / node with the credentials of another.
 //!   `again [mut=<M>] [sched=<S>]`   another handshake between the same two nodes (resumption
 //!       is offered when the previous one seeded the caches)
 //!
@@ -22,7 +25,19 @@
 //!   `x:<tag>` substitute field `<tag>` by its value in the previous handshake.
 //! `sched=` verdict per datagram in send order: `d` deliver, `x` drop, `u` duplicate, `l<ms>` delay.
 //!
-//! Output: `t=<l|r><secs> ctl=<S> dev=<S> keys=<agree|differ|na> init=<ok|err>` with
+//!   `rmfab`      the device removes its fabric the way the RemoveFabric handler does (`Fabrics::remove`,
+//!                `Sessions::remove_for_fabric`, `ResumableSessions::remove_for_fabric`); `=> removed dc=<cache>`
+//!   `addfab root=<rec> dnoc=<rec> dicac=<rec|-> [dkey=<k>]`   the device installs a fabric (it re-uses the index)
+//!   `foreign`    two OTHER nodes (another fabric) run a handshake and a resumed one; the payloads of the
+//!                resumed one are kept for `y`/`Y`/`z` mutations
+//!   `cache <ops>`  differential test of the real `ResumableSessions` (see `cache_op`)
+//! further mutation kinds: `y:<tag>` substitute field `<tag>` by its value in the foreign resumed handshake,
+//! `Y` both resumption fields (6 and 7) from it, `z` the whole foreign payload.
+//!
+//! Output: `t=<l|r><secs> ctl=<S> dev=<S> keys=<agree|differ|na> init=<ok|err> via=<r|f|-> rid=<n|-> cc=<C> dc=<C>` with
+//! `via`: a Sigma2_Resume (`r`) / Sigma2 (`f`) was sent; `rid`: the resumption id the DELIVERED Sigma1 carried;
+//! `C` = the node's resumption cache after the operation, oldest first: `<fab>:<peer>:<cats>:<rid>:<secret>` joined
+//! by `+` (`-` = empty); byte strings are named by small numbers in order of first appearance within the case.
 //! `S = none | sess(fab=<idx>,peer=<node>,cats=<a.b|->,local=<node>)` — the CASE sessions that
 //! became live (unreserved) during this operation, read from the session tables through the hook.
 use std::cell::RefCell;
@@ -45,7 +60,7 @@ use rs_matter::transport::session::SessionMode;
 use rs_matter::utils::storage::ParseBuf;
 use rs_matter::Matter;
 
-use crate::c19::{gen_records, kv, mint, Attr, GenP, Keys, Rec, IPK};
+use crate::c19::{defect_at, gen_records, kv, mint, Attr, Chain, GenP, Keys, Rec, IPK, N_DEFECTS};
 use crate::proto::{parse_cases, Case, Out};
 use crate::rng::Rng;
 use crate::simnet::{addr_of, run_sim, Scripted, SimEnd, SimNet, Verdict};
@@ -96,6 +111,47 @@ fn fmt_sess(v: &[Sess]) -> String {
         })
         .collect::<Vec<_>>()
         .join("+")
+}
+
+
+/// byte strings (resumption ids, shared secrets) are reported as small numbers, in order of first appearance
+#[derive(Default)]
+struct Names(RefCell<Vec<Vec<u8>>>);
+
+impl Names {
+    fn name(&self, b: &[u8]) -> usize {
+        let mut v = self.0.borrow_mut();
+        if let Some(i) = v.iter().position(|x| x.as_slice() == b) {
+            i
+        } else {
+            v.push(b.to_vec());
+            v.len() - 1
+        }
+    }
+}
+
+fn fmt_cache(m: &Matter, names: &Names) -> String {
+    let recs: Vec<String> = m.with_state(|st| {
+        st.resumption
+            .iter()
+            .map(|r| {
+                let cats: Vec<String> = r.peer_cat_ids.iter().filter(|c| **c != 0).map(|c| c.to_string()).collect();
+                format!(
+                    "{}:{}:{}:{}:{}",
+                    r.fab_idx.get(),
+                    r.peer_nodeid,
+                    if cats.is_empty() { "-".to_string() } else { cats.join(".") },
+                    names.name(r.resumption_id.reference().access()),
+                    names.name(r.shared_secret.reference().access())
+                )
+            })
+            .collect()
+    });
+    if recs.is_empty() {
+        "-".into()
+    } else {
+        recs.join("+")
+    }
 }
 
 /// which handshake message a datagram carries, and where its payload starts
@@ -182,7 +238,7 @@ fn parse_sched(s: &str) -> Vec<Verdict> {
 /// payloads of the handshake messages of the previous handshake (for replay / substitution)
 type Prev = Rc<RefCell<std::collections::HashMap<String, Vec<u8>>>>;
 
-fn apply(m: &Mutation, data: &[u8], off: usize, prev: &std::collections::HashMap<String, Vec<u8>>) -> Option<Vec<u8>> {
+fn apply(m: &Mutation, data: &[u8], off: usize, prev: &std::collections::HashMap<String, Vec<u8>>, foreign: &std::collections::HashMap<String, Vec<u8>>) -> Option<Vec<u8>> {
     let mut out = data.to_vec();
     let plen = data.len() - off;
     match m.kind.as_str() {
@@ -225,6 +281,24 @@ fn apply(m: &Mutation, data: &[u8], off: usize, prev: &std::collections::HashMap
             }
             out[off + s..off + s + l].copy_from_slice(&old[os..os + ol]);
         }
+        "y" | "Y" => {
+            // field(s) taken from the resumed handshake of two other nodes
+            let old = foreign.get(&m.msg)?;
+            let tags: Vec<u8> = if m.kind == "Y" { vec![6, 7] } else { vec![m.a as u8] };
+            for tag in tags {
+                let (s, l) = field_range(&data[off..], tag)?;
+                let (os, ol) = field_range(old, tag)?;
+                if l != ol {
+                    return None;
+                }
+                out[off + s..off + s + l].copy_from_slice(&old[os..os + ol]);
+            }
+        }
+        "z" => {
+            let old = foreign.get(&m.msg)?;
+            out.truncate(off);
+            out.extend_from_slice(old);
+        }
         _ => return None,
     }
     if out == data {
@@ -238,8 +312,11 @@ struct Nodes {
     ctl: Matter<'static>,
     dev: Matter<'static>,
     ctl_fab: core::num::NonZeroU8,
+    dev_fab: std::cell::Cell<Option<core::num::NonZeroU8>>,
     dev_node: u64,
     prev: Prev,
+    foreign: Prev,
+    names: Rc<Names>,
 }
 
 fn node_id(r: &Rec) -> Option<u64> {
@@ -263,8 +340,9 @@ fn install<C: Crypto>(crypto: &C, keys: &Keys, m: &Matter, root: &Rec, noc: &Rec
     })
 }
 
-fn handshake(n: &Nodes, mutation: Option<Mutation>, sched: Vec<Verdict>) -> String {
-    let crypto = test_only_crypto();
+/// `crypto` lives as long as the case: `test_only_crypto()` seeds its generator identically on every call, so a
+/// fresh instance per handshake would make every handshake draw the same "random" values
+fn handshake<C: Crypto>(crypto: &C, n: &Nodes, mutation: Option<Mutation>, sched: Vec<Verdict>) -> String {
     // guard: a datagram storm (two nodes answering each other without end) must not take the
     // harness down; after `CAP` datagrams everything is dropped and the outcome says `storm`
     const CAP: u64 = 1500;
@@ -280,32 +358,43 @@ fn handshake(n: &Nodes, mutation: Option<Mutation>, sched: Vec<Verdict>) -> Stri
     }
     let net = SimNet::new(2, Box::new(Capped(Scripted(sched))));
     let seen: Rc<RefCell<std::collections::HashMap<String, Vec<u8>>>> = Rc::new(RefCell::new(Default::default()));
+    // the first Sigma1 as DELIVERED (after the mutation, if any)
+    let delivered_s1: Rc<RefCell<Option<Vec<u8>>>> = Rc::new(RefCell::new(None));
     {
         let seen = seen.clone();
         let prev = n.prev.clone();
+        let foreign = n.foreign.clone();
+        let delivered_s1 = delivered_s1.clone();
         let mut done = false;
         net.set_tamper(Box::new(move |_seq, _from, _to, data| {
             let (name, off) = classify(data)?;
             seen.borrow_mut().entry(name.to_string()).or_insert_with(|| data[off..].to_vec());
-            let m = mutation.as_ref()?;
-            if done || m.msg != name {
-                return None;
+            let res = match mutation.as_ref() {
+                Some(m) if !done && m.msg == name => {
+                    done = true;
+                    apply(m, data, off, &prev.borrow(), &foreign.borrow())
+                }
+                _ => None,
+            };
+            if name == "s1" && delivered_s1.borrow().is_none() {
+                let d = res.as_deref().unwrap_or(data);
+                let o = off.min(d.len());
+                *delivered_s1.borrow_mut() = Some(d[o..].to_vec());
             }
-            done = true;
-            apply(m, data, off, &prev.borrow())
+            res
         }));
     }
     let before_c: Vec<u16> = sessions(&n.ctl).iter().map(|s| s.lsid).collect();
     let before_d: Vec<u16> = sessions(&n.dev).iter().map(|s| s.lsid).collect();
     let ds = net.socket(0);
     let cs = net.socket(1);
-    let sc = SecureChannel::new(&crypto, &());
+    let sc = SecureChannel::new(crypto, &());
     let responder = Responder::new("device", sc, &n.dev, 0);
     let flow = async {
         let r: Result<(), Error> = async {
-            let exchange = Exchange::initiate_plaintext(&n.ctl, &crypto, addr_of(0)).await?;
+            let exchange = Exchange::initiate_plaintext(&n.ctl, crypto, addr_of(0)).await?;
             match select(
-                core::pin::pin!(CaseInitiator::perform(exchange, &crypto, n.ctl_fab, n.dev_node)),
+                core::pin::pin!(CaseInitiator::perform(exchange, crypto, n.ctl_fab, n.dev_node)),
                 core::pin::pin!(Timer::after(Duration::from_secs(40))),
             )
             .await
@@ -320,7 +409,7 @@ fn handshake(n: &Nodes, mutation: Option<Mutation>, sched: Vec<Verdict>) -> Stri
         r
     };
     let all = async {
-        match select3(n.dev.run(&crypto, &ds, &ds, NoNetwork), select(responder.run::<4>(), n.ctl.run(&crypto, &cs, &cs, NoNetwork)), flow).await {
+        match select3(n.dev.run(crypto, &ds, &ds, NoNetwork), select(responder.run::<4>(), n.ctl.run(crypto, &cs, &cs, NoNetwork)), flow).await {
             Either3::Third(r) => Some(r),
             _ => None,
         }
@@ -357,7 +446,184 @@ fn handshake(n: &Nodes, mutation: Option<Mutation>, sched: Vec<Verdict>) -> Stri
             eprintln!("  #{} t={} {}->{} len={} {:?} {}", i, l.t_ms, l.from, l.to, l.bytes.len(), l.verdict, crate::proto::hex(&l.bytes[..l.bytes.len().min(28)]));
         }
     }
-    format!("t={} ctl={} dev={} keys={} init={}{}", ts, fmt_sess(&new_c), fmt_sess(&new_d), keys, init, storm)
+    let via = if seen.borrow().contains_key("r2") {
+        "r"
+    } else if seen.borrow().contains_key("s2") {
+        "f"
+    } else {
+        "-"
+    };
+    let rid = delivered_s1
+        .borrow()
+        .as_ref()
+        .and_then(|p| field_range(p, 6).map(|(s, l)| n.names.name(&p[s..s + l]).to_string()))
+        .unwrap_or_else(|| "-".into());
+    format!(
+        "t={} ctl={} dev={} keys={} init={}{} via={} rid={} cc={} dc={}",
+        ts,
+        fmt_sess(&new_c),
+        fmt_sess(&new_d),
+        keys,
+        init,
+        storm,
+        via,
+        rid,
+        fmt_cache(&n.ctl, &n.names),
+        fmt_cache(&n.dev, &n.names)
+    )
+}
+
+/// two fresh nodes with the given chains; `Err` = a fabric could not be installed
+#[allow(clippy::too_many_arguments)]
+fn make_nodes<C: Crypto>(
+    crypto: &C,
+    keys: &Keys,
+    root: &Rec,
+    cnoc: &Rec,
+    cicac: Option<&Rec>,
+    ckey: Option<u64>,
+    droot: &Rec,
+    dnoc: &Rec,
+    dicac: Option<&Rec>,
+    dkey: Option<u64>,
+    names: Rc<Names>,
+    foreign: Prev,
+    cpres: Option<(Rec, Option<Rec>)>,
+    dpres: Option<(Rec, Option<Rec>)>,
+) -> Result<Nodes, String> {
+    let ctl = Matter::new(&TEST_DEV_DET, TEST_DEV_COMM, &TEST_DEV_ATT, 0);
+    let dev = Matter::new(&TEST_DEV_DET, TEST_DEV_COMM, &TEST_DEV_ATT, 0);
+    let cf = install(crypto, keys, &ctl, root, cnoc, cicac, ckey)?;
+    let df = install(crypto, keys, &dev, droot, dnoc, dicac, dkey)?;
+    // a dishonest peer: identity as installed, other certificates presented
+    let present = |m: &Matter, idx: core::num::NonZeroU8, p: &(Rec, Option<Rec>), k: Option<u64>| -> Result<(), String> {
+        let nb = mint(crypto, keys, &p.0).map_err(|_| "mint")?;
+        let ib = match &p.1 {
+            Some(i) => mint(crypto, keys, i).map_err(|_| "mint")?,
+            None => vec![],
+        };
+        let sk = keys.key(k.unwrap_or(p.0.pk)).sk;
+        m.with_state(|st| {
+            st.fabrics
+                .get_mut(idx)
+                .ok_or_else(|| "nofabric".to_string())?
+                .verif_present_certs(&nb, &ib, CanonPkcSecretKeyRef::new(&sk))
+                .map_err(|e| format!("present:{:?}", e.code()))
+        })
+    };
+    if let Some(p) = &cpres {
+        present(&ctl, cf, p, ckey)?;
+    }
+    if let Some(p) = &dpres {
+        present(&dev, df, p, dkey)?;
+    }
+    Ok(Nodes {
+        ctl,
+        dev,
+        ctl_fab: cf,
+        dev_fab: std::cell::Cell::new(Some(df)),
+        dev_node: node_id(dnoc).unwrap_or(0),
+        prev: Rc::new(RefCell::new(Default::default())),
+        foreign,
+        names,
+    })
+}
+
+/// `cache <op>;<op>;…` on a fresh REAL `ResumableSessions`; the answer lists, per op, what the real cache
+/// returned, and ends with its content (`fab:peer:cats:rid:secret`, numbers as given).
+///   `i<fab>.<peer>.<cat>.<rid>.<sec>` insert_or_update, `r<rid>` find_by_resumption_id, `p<fab>.<peer>` find_by_peer,
+///   `f<fab>` remove_for_fabric, `x<fab>.<peer>` remove_by_peer, `s` store_persist + load_persist into a new cache,
+///   `t<n>` store, then load a blob truncated by `n` bytes (unparsable ⇒ empty cache, blob removed)
+fn cache_op(spec: &str) -> String {
+    use rs_matter::crypto::CanonPkcSharedSecret;
+    use rs_matter::persist::KvBlobStore;
+    use rs_matter::sc::case::verif_casep::CaseResumptionId;
+    use rs_matter::sc::case::{ResumableSession, ResumableSessions, MAX_RESUMPTION_RECORDS};
+    #[derive(Default)]
+    struct MemKv(std::collections::HashMap<u16, Vec<u8>>);
+    impl KvBlobStore for MemKv {
+        fn load<'a>(&mut self, key: u16, buf: &'a mut [u8]) -> Result<Option<&'a [u8]>, Error> {
+            match self.0.get(&key) {
+                Some(v) => {
+                    buf[..v.len()].copy_from_slice(v);
+                    Ok(Some(&buf[..v.len()]))
+                }
+                None => Ok(None),
+            }
+        }
+        fn store(&mut self, key: u16, data: &[u8], _buf: &mut [u8]) -> Result<(), Error> {
+            self.0.insert(key, data.to_vec());
+            Ok(())
+        }
+        fn remove(&mut self, key: u16, _buf: &mut [u8]) -> Result<(), Error> {
+            self.0.remove(&key);
+            Ok(())
+        }
+    }
+    let mk = |fab: u64, peer: u64, cat: u64, rid: u64, sec: u64| {
+        let mut resumption_id = CaseResumptionId::new();
+        resumption_id.access_mut()[..8].copy_from_slice(&rid.to_be_bytes());
+        let mut shared_secret = CanonPkcSharedSecret::new();
+        shared_secret.access_mut()[..8].copy_from_slice(&sec.to_be_bytes());
+        ResumableSession {
+            fab_idx: core::num::NonZeroU8::new((fab as u8).max(1)).unwrap(),
+            peer_nodeid: peer,
+            peer_cat_ids: [cat as u32, 0, 0],
+            resumption_id,
+            shared_secret,
+        }
+    };
+    let show = |r: &ResumableSession| {
+        let rid = u64::from_be_bytes(r.resumption_id.reference().access()[..8].try_into().unwrap());
+        let sec = u64::from_be_bytes(r.shared_secret.reference().access()[..8].try_into().unwrap());
+        format!("{}:{}:{}:{}:{}", r.fab_idx.get(), r.peer_nodeid, r.peer_cat_ids[0], rid, sec)
+    };
+    let nums = |t: &str| -> Vec<u64> { t.split('.').filter_map(|x| x.parse().ok()).collect() };
+    let mut cache = ResumableSessions::new();
+    let mut res: Vec<String> = vec![format!("cap{}", MAX_RESUMPTION_RECORDS)];
+    for op in spec.split(';').filter(|x| !x.is_empty()) {
+        let v = nums(&op[1..]);
+        let g = |i: usize| v.get(i).copied().unwrap_or(0);
+        match op.as_bytes()[0] {
+            b'i' => cache.insert_or_update(mk(g(0), g(1), g(2), g(3), g(4))),
+            b'r' => {
+                let mut id = [0u8; 16];
+                id[..8].copy_from_slice(&g(0).to_be_bytes());
+                res.push(cache.find_by_resumption_id(&id).map(show).unwrap_or_else(|| "none".into()));
+            }
+            b'p' => res.push(
+                cache
+                    .find_by_peer(core::num::NonZeroU8::new((g(0) as u8).max(1)).unwrap(), g(1))
+                    .map(show)
+                    .unwrap_or_else(|| "none".into()),
+            ),
+            b'f' => cache.remove_for_fabric(core::num::NonZeroU8::new((g(0) as u8).max(1)).unwrap()),
+            b'x' => cache.remove_by_peer(core::num::NonZeroU8::new((g(0) as u8).max(1)).unwrap(), g(1)),
+            b's' | b't' => {
+                let mut kv = MemKv::default();
+                let mut buf = vec![0u8; rs_matter::persist::KV_BUF_SIZE];
+                if cache.store_persist(&mut kv, &mut buf).is_err() {
+                    res.push("storeerr".into());
+                    continue;
+                }
+                if op.as_bytes()[0] == b't' {
+                    for blob in kv.0.values_mut() {
+                        let n = blob.len().saturating_sub(g(0).max(1) as usize);
+                        blob.truncate(n);
+                    }
+                }
+                let mut fresh = ResumableSessions::new();
+                match fresh.load_persist(&mut kv, &mut buf) {
+                    Ok(()) => res.push(format!("loaded{}kv{}", fresh.len(), kv.0.len())),
+                    Err(_) => res.push("loaderr".into()),
+                }
+                cache = fresh;
+            }
+            _ => res.push("bad".into()),
+        }
+    }
+    let content: Vec<String> = cache.iter().map(show).collect();
+    format!("{} | {}", res.join(" "), if content.is_empty() { "-".into() } else { content.join("+") })
 }
 
 fn run_case(out: &mut Out, case: &Case) {
@@ -365,6 +631,8 @@ fn run_case(out: &mut Out, case: &Case) {
     let crypto = test_only_crypto();
     let keys = Keys::new(&crypto);
     let mut nodes: Option<Nodes> = None;
+    let names: Rc<Names> = Rc::new(Names::default());
+    let foreign: Prev = Rc::new(RefCell::new(Default::default()));
     for op in &case.ops {
         let toks: Vec<&str> = op.split_whitespace().collect();
         let mut mutation = None;
@@ -379,32 +647,78 @@ fn run_case(out: &mut Out, case: &Case) {
         if std::env::var("VH_TRACE").is_ok() {
             eprintln!("case {} start {}", case.id, op.split_whitespace().filter(|t| t.starts_with("mut=") || t.starts_with("sched=")).collect::<Vec<_>>().join(" "));
         }
+        let get = |k: &str| toks[1..].iter().find_map(|t| kv(t, k)).and_then(|v| if v == "-" { None } else { Rec::parse(v) });
+        let key = |k: &str| toks[1..].iter().find_map(|t| kv(t, k)).and_then(|v| v.parse::<u64>().ok());
         let res = std::panic::catch_unwind(std::panic::AssertUnwindSafe(|| match toks.first().copied() {
             Some("hs") => {
-                let get = |k: &str| toks[1..].iter().find_map(|t| kv(t, k)).and_then(|v| if v == "-" { None } else { Rec::parse(v) });
                 let (Some(root), Some(cnoc), Some(dnoc)) = (get("root"), get("cnoc"), get("dnoc")) else {
                     return "bad".to_string();
                 };
                 let droot = get("droot").unwrap_or_else(|| root.clone());
-                let ctl = Matter::new(&TEST_DEV_DET, TEST_DEV_COMM, &TEST_DEV_ATT, 0);
-                let dev = Matter::new(&TEST_DEV_DET, TEST_DEV_COMM, &TEST_DEV_ATT, 0);
-                let key = |k: &str| toks[1..].iter().find_map(|t| kv(t, k)).and_then(|v| v.parse::<u64>().ok());
-                let cf = match install(&crypto, &keys, &ctl, &root, &cnoc, get("cicac").as_ref(), key("ckey")) {
-                    Ok(f) => f,
+                let cpres = get("cpnoc").map(|n| (n, get("cpicac")));
+                let dpres = get("dpnoc").map(|n| (n, get("dpicac")));
+                let n = match make_nodes(&crypto, &keys, &root, &cnoc, get("cicac").as_ref(), key("ckey"), &droot, &dnoc, get("dicac").as_ref(), key("dkey"), names.clone(), foreign.clone(), cpres, dpres) {
+                    Ok(n) => n,
                     Err(e) => return e,
                 };
-                if let Err(e) = install(&crypto, &keys, &dev, &droot, &dnoc, get("dicac").as_ref(), key("dkey")) {
-                    return e;
-                }
-                let n = Nodes { ctl, dev, ctl_fab: cf, dev_node: node_id(&dnoc).unwrap_or(0), prev: Rc::new(RefCell::new(Default::default())) };
-                let r = handshake(&n, mutation, sched);
+                let r = handshake(&crypto, &n, mutation, sched);
                 nodes = Some(n);
                 r
             }
             Some("again") => match nodes.as_ref() {
-                Some(n) => handshake(n, mutation, sched),
+                Some(n) => handshake(&crypto, n, mutation, sched),
                 None => "nostate".to_string(),
             },
+            Some("rmfab") => match nodes.as_ref() {
+                Some(n) => {
+                    let Some(idx) = n.dev_fab.get() else { return "nofabric".to_string() };
+                    // the state changes of `NocHandler::handle_remove_fabric`, in its order
+                    let r = n.dev.with_state(|st| {
+                        if st.fabrics.remove(idx).is_ok() {
+                            st.verif_sessions_mut().remove_for_fabric(idx, None);
+                            st.resumption.remove_for_fabric(idx);
+                            true
+                        } else {
+                            false
+                        }
+                    });
+                    n.dev_fab.set(None);
+                    format!("{} dc={}", if r { "removed" } else { "notfound" }, fmt_cache(&n.dev, &n.names))
+                }
+                None => "nostate".to_string(),
+            },
+            Some("addfab") => match nodes.as_ref() {
+                Some(n) => {
+                    let (Some(root), Some(dnoc)) = (get("root"), get("dnoc")) else {
+                        return "bad".to_string();
+                    };
+                    match install(&crypto, &keys, &n.dev, &root, &dnoc, get("dicac").as_ref(), key("dkey")) {
+                        Ok(idx) => {
+                            n.dev_fab.set(Some(idx));
+                            format!("added idx={} dc={}", idx.get(), fmt_cache(&n.dev, &n.names))
+                        }
+                        Err(e) => e,
+                    }
+                }
+                None => "nostate".to_string(),
+            },
+            Some("foreign") => {
+                // two other nodes on another fabric: a full handshake, then a resumed one whose payloads are kept
+                let p = GenP { fab: 0x7777, node: 900, cats: vec![], rca: 8, ica: None, nb: 1, na: 0, kr: 0, ki: 1, kn: 2 };
+                let c = gen_records(&p);
+                let d = gen_records(&GenP { node: 901, kn: 4, ..p });
+                let fnames: Rc<Names> = Rc::new(Names::default());
+                let n = match make_nodes(&crypto, &keys, &c.0, &c.2, None, None, &c.0, &d.2, None, None, fnames, Rc::new(RefCell::new(Default::default())), None, None) {
+                    Ok(n) => n,
+                    Err(e) => return e,
+                };
+                let a = handshake(&crypto, &n, None, vec![]);
+                let b = handshake(&crypto, &n, None, vec![]);
+                *foreign.borrow_mut() = n.prev.borrow().clone();
+                let ok = a.contains("keys=agree") && b.contains("keys=agree") && b.contains("via=r");
+                format!("foreign {}", if ok { "resumed" } else { "failed" })
+            }
+            Some("cache") => cache_op(toks.get(1).copied().unwrap_or("")),
             _ => "bad".to_string(),
         }));
         let v = res.unwrap_or_else(|_| "panic".into());
@@ -413,7 +727,7 @@ fn run_case(out: &mut Out, case: &Case) {
         }
         for part in v.split_whitespace() {
             if let Some((k, val)) = part.split_once('=') {
-                if k != "t" {
+                if k != "t" && k != "cc" && k != "dc" && k != "rid" {
                     let cls = if val.starts_with("sess") { "sess" } else { val };
                     out.stat(&format!("out_{}_{}", k, cls), 1);
                 }
@@ -481,24 +795,61 @@ fn random_sched(r: &mut Rng, out: &mut Out) -> String {
     format!("sched={}", v.join("."))
 }
 
-const RULE: &str = "#rule a case is a sequence of CASE handshakes between two real in-process Matter nodes on the simulated network: honest chains (with/without ICAC, CATs), a chain invalid in one respect on either side (signature, issuer name, expiry, CA flag, key usage, path length, critical extension, node/fabric id, NOC as authority, other root, CA-shaped leaf), a second handshake (resumption) and, on valid set-ups, one mutation of one handshake datagram (bit flip in a TLV field / payload / header, truncation, replay or field substitution from the previous handshake) or a loss/duplication/delay schedule; observed per side: live CASE sessions (fabric, peer node, CATs) + whether both ends hold the same directional keys; non-trivial = by outputs";
+const RULE: &str = "#rule a case is a sequence of operations on two real in-process Matter nodes on the simulated network (CaseInitiator::perform vs the SecureChannel responder): CASE handshakes with honest chains (with/without ICAC, CATs); EVERY entry of the C19 defect catalogue (shared code: c19::defect_at) applied to each certificate of the chain presented by the controller (responder validates) and by the device (initiator validates); a node that does not hold its NOC's key; a DISHONEST peer installed with standard credentials (identity, destination id) but presenting the changed chain or valid credentials of another node / of another fabric id served by the same root key (hook Fabric::verif_present_certs), on either side; resumption chains; one mutation of one handshake datagram (bit flip in a TLV field / payload / header, truncation, replay or field substitution from the previous handshake = stale ids and MICs, substitution from a handshake of two other nodes = foreign ids and MICs) or a loss/duplication/delay schedule; fabric removal and re-installation on the device between handshakes; plus op strings on the real ResumableSessions cache. Observed per side: live CASE sessions (fabric, peer node, CATs), key agreement, which path was taken, the resumption id received, both resumption caches; non-trivial = by outputs";
+
+/// the time the nodes of this harness live at (virtual clock, same for every node)
+fn node_time() -> (u32, bool) {
+    let m = Matter::new(&TEST_DEV_DET, TEST_DEV_COMM, &TEST_DEV_ATT, 0);
+    let t = m.with_rtc(|r| r.utc_time());
+    (t.any_secs() as u32, matches!(t, rs_matter::dm::clusters::time_sync::UtcTime::Reliable(_)))
+}
+
+fn random_cache_ops(r: &mut Rng, thorough: bool) -> String {
+    let n = if thorough { r.range(10, 60) } else { r.range(6, 40) };
+    let mut v = Vec::new();
+    let mut next_rid = 100u64;
+    for _ in 0..n {
+        let fab = r.range(1, 3);
+        let hi = if r.chance(1, 2) { 4 } else { 12 };
+        let peer = r.range(1, hi);
+        v.push(match r.below(12) {
+            0..=5 => {
+                next_rid += 1;
+                // mostly fresh ids, sometimes a repeated one
+                let rid = if r.chance(1, 8) { r.range(100, next_rid) } else { next_rid };
+                format!("i{}.{}.{}.{}.{}", fab, peer, r.below(3), rid, r.range(1, 9))
+            }
+            6..=7 => format!("r{}", r.range(100, next_rid + 1)),
+            8 => format!("p{}.{}", fab, peer),
+            9 => format!("f{}", fab),
+            10 => format!("x{}.{}", fab, peer),
+            _ => if r.chance(1, 4) { format!("t{}", r.range(1, 40)) } else { "s".to_string() },
+        });
+    }
+    v.join(";")
+}
 
 pub fn gen(a: &Args) -> String {
     let mut r = Rng::new(a.seed);
     let mut out = Out::default();
     out.buf.push_str(RULE);
     out.buf.push('\n');
-    let n_cases = if a.thorough { 7000 } else { 420 };
-    for id in 0..n_cases {
-        let mut cr = r.fork();
+    let (secs, reliable) = node_time();
+    let mut id = 0u64;
+    let mut emit = |out: &mut Out, ops: Vec<String>| {
+        run_case(out, &Case { id, kind: "case".into(), ops });
+        id += 1;
+    };
+    // the two standard chains of a case
+    let base = |cr: &mut Rng, force_icac: bool| {
         let fab = *cr.pick(&[1u64, 7, 0x1234]);
         let cats = if cr.chance(1, 3) { vec![0x0001_0001u32, 0x00AB_0002][..cr.range(1, 2) as usize].to_vec() } else { vec![] };
-        let c_icac = cr.chance(1, 2);
-        let d_icac = cr.chance(1, 3);
+        let c_icac = force_icac || cr.chance(1, 2);
+        let d_icac = force_icac || cr.chance(1, 3);
         let cn = 100 + cr.below(3);
         let dn = 200 + cr.below(3);
-        let c = std_chain(&mut cr, fab, cn, cats, c_icac, 2);
-        let mut d = std_chain(&mut cr, fab, dn, vec![], d_icac, 4);
+        let c = std_chain(cr, fab, cn, cats, c_icac, 2);
+        let mut d = std_chain(cr, fab, dn, vec![], d_icac, 4);
         // both chains hang under the same root record; ICAC keys differ per side
         if let Some(i) = d.1.as_mut() {
             i.pk = 3;
@@ -506,9 +857,182 @@ pub fn gen(a: &Args) -> String {
             d.2.ak = Some(3);
             d.2.sg = Some(3);
         }
+        (fab, c, d)
+    };
+
+    // ---- 1. the C19 defect catalogue, every entry on every certificate, presented by either side
+    let rounds = if a.thorough { 10 } else { 1 };
+    for round in 0..rounds {
+        for k in 0..N_DEFECTS {
+            for who in 0..3u64 {
+                for on_ctl in [true, false] {
+                    let mut cr = r.fork();
+                    let (fab, c, d) = base(&mut cr, who == 1 || round % 2 == 1);
+                    let root = c.0.clone();
+                    let side = if on_ctl { &c } else { &d };
+                    let mut ch = Chain { fab, root: root.clone(), icac: side.1.clone(), noc: side.2.clone(), time: String::new(), secs };
+                    let Some(name) = defect_at(&mut cr, &mut ch, reliable, Some((k, who))) else {
+                        out.stat("catalogue_not_applicable", 1);
+                        continue;
+                    };
+                    out.stat("kind_catalogue", 1);
+                    out.stat(&format!("cat_{}_{}", if on_ctl { "ctl" } else { "dev" }, name), 1);
+                    let o = |x: &Option<Rec>| x.as_ref().map(|r| r.text()).unwrap_or_else(|| "-".into());
+                    // (a) an honest node that was GIVEN these credentials: the presenter is installed with the (possibly
+                    // defective) NOC / ICAC; the VERIFIER trusts the (possibly defective or different) root
+                    let (cc, dd, croot, droot) = if on_ctl {
+                        ((root.clone(), ch.icac.clone(), ch.noc.clone()), d.clone(), root.clone(), ch.root.clone())
+                    } else {
+                        (c.clone(), (root.clone(), ch.icac.clone(), ch.noc.clone()), ch.root.clone(), root.clone())
+                    };
+                    let dr = if droot != croot { Some(droot.clone()) } else { None };
+                    let mut ops = vec![hs_line(&croot, &cc, &dd, dr.as_ref(), "")];
+                    if cr.chance(1, 4) {
+                        ops.push("again".to_string());
+                    }
+                    emit(&mut out, ops);
+                    // (b) a DISHONEST peer: installed with the standard credentials (so that the destination id and
+                    // its own identity are those of the addressed fabric / node) but presenting the changed chain
+                    out.stat("kind_catalogue_presented", 1);
+                    let extra = format!("{}pnoc={} {}picac={}", if on_ctl { "c" } else { "d" }, ch.noc.text(), if on_ctl { "c" } else { "d" }, o(&ch.icac));
+                    emit(&mut out, vec![hs_line(&croot, &c, &d, dr.as_ref(), &extra)]);
+                }
+            }
+        }
+    }
+
+    // ---- 1b. a peer with VALID credentials that are not the addressed ones (same root): another node id, another
+    // fabric id served by the same root key (with and without ICAC), on either side
+    let n_other = if a.thorough { 150 } else { 6 };
+    for k in 0..n_other {
+        for on_ctl in [true, false] {
+            let mut cr = r.fork();
+            let (fab, c, d) = base(&mut cr, k % 2 == 0);
+            let side = if on_ctl { &c } else { &d };
+            let (mut pn, mut pi) = (side.2.clone(), side.1.clone());
+            let what = match k % 3 {
+                0 => {
+                    for at in pn.s.iter_mut() { if let Attr::Node(v) = at { *v += 7; } }
+                    "other_node_id"
+                }
+                1 => {
+                    // the same root key serves fabric `fab ^ 0x10` too: NOC (and ICAC) of that fabric
+                    for at in pn.s.iter_mut() { if let Attr::Fab(v) = at { *v = fab ^ 0x10; } }
+                    if let Some(i) = pi.as_mut() {
+                        for at in i.s.iter_mut() { if let Attr::Fab(v) = at { *v = fab ^ 0x10; } }
+                        pn.i = i.s.clone();
+                    }
+                    "other_fabric_same_root"
+                }
+                _ => {
+                    // only the ICAC is scoped to the other fabric
+                    let Some(i) = pi.as_mut() else { continue };
+                    for at in i.s.iter_mut() { if let Attr::Fab(v) = at { *v = fab ^ 0x10; } }
+                    pn.i = i.s.clone();
+                    "icac_other_fabric_same_root"
+                }
+            };
+            out.stat("kind_valid_but_not_addressed", 1);
+            out.stat(&format!("presented_{}_{}", if on_ctl { "ctl" } else { "dev" }, what), 1);
+            let o = |x: &Option<Rec>| x.as_ref().map(|r| r.text()).unwrap_or_else(|| "-".into());
+            let p = if on_ctl { "c" } else { "d" };
+            let extra = format!("{}pnoc={} {}picac={}", p, pn.text(), p, o(&pi));
+            emit(&mut out, vec![hs_line(&c.0, &c, &d, None, &extra)]);
+        }
+    }
+
+    // ---- 2. resumption fields: mutated, stale, foreign ids and MICs; status report
+    let res_muts: &[&str] = &[
+        "s1:f:6", "s1:f:7", "s1:x:6", "s1:x:7", "s1:r", "s1:y:6", "s1:y:7", "s1:Y", "s1:z", "s1:f:1", "s1:f:2", "s1:x:1",
+        "r2:f:1", "r2:f:2", "r2:f:3", "r2:x:1", "r2:x:2", "r2:r", "r2:y:1", "r2:y:2", "r2:z", "st:p", "st:t", "st:r",
+    ];
+    let rounds = if a.thorough { 20 } else { 1 };
+    for _ in 0..rounds {
+        for m in res_muts {
+            let mut cr = r.fork();
+            let (_, c, d) = base(&mut cr, false);
+            out.stat("kind_resumption_fields", 1);
+            out.stat(&format!("resmut_{}", m.replace(':', "_")), 1);
+            let arg = match m.split(':').nth(1) {
+                Some("f") => format!("{}:{}", m, cr.below(4096)),
+                Some("p") | Some("t") => format!("{}:{}", m, cr.below(4096)),
+                _ => m.to_string(),
+            };
+            emit(&mut out, vec![
+                "foreign".to_string(),
+                hs_line(&c.0, &c, &d, None, ""),
+                "again".to_string(),
+                "again".to_string(),
+                format!("again mut={}", arg),
+                "again".to_string(),
+            ]);
+        }
+    }
+
+    // ---- 3. fabric removal between handshakes
+    let n_rm = if a.thorough { 300 } else { 12 };
+    for i in 0..n_rm {
+        let mut cr = r.fork();
+        let (fab, c, d) = base(&mut cr, false);
+        out.stat("kind_fabric_removal", 1);
+        let o = |x: &Option<Rec>| x.as_ref().map(|r| r.text()).unwrap_or_else(|| "-".into());
+        let mut ops = vec![hs_line(&c.0, &c, &d, None, ""), "again".to_string(), "rmfab".to_string(), "again".to_string()];
+        match i % 3 {
+            0 => {
+                // the same credentials again: a FULL handshake must follow
+                ops.push(format!("addfab root={} dnoc={} dicac={}", c.0.text(), d.2.text(), o(&d.1)));
+            }
+            1 => {
+                // another node id on the same fabric under the re-used index
+                let mut d2 = d.clone();
+                for at in d2.2.s.iter_mut() {
+                    if let Attr::Node(v) = at {
+                        *v += 50;
+                    }
+                }
+                ops.push(format!("addfab root={} dnoc={} dicac={}", c.0.text(), d2.2.text(), o(&d2.1)));
+            }
+            _ => {
+                // another fabric (other root key, other id) under the re-used index
+                let e = std_chain(&mut cr, fab ^ 0x40, 300, vec![], false, 4);
+                let mut er = e.0.clone();
+                er.pk = 5; er.sk = Some(5); er.ak = Some(5); er.sg = Some(5);
+                let mut en = e.2.clone();
+                en.ak = Some(5); en.sg = Some(5);
+                ops.push(format!("addfab root={} dnoc={} dicac=-", er.text(), en.text()));
+            }
+        }
+        ops.push("again".to_string());
+        ops.push("again".to_string());
+        emit(&mut out, ops);
+    }
+
+    // ---- 4. the cache itself
+    let n_cache = if a.thorough { 3000 } else { 80 };
+    for _ in 0..n_cache {
+        let mut cr = r.fork();
+        out.stat("kind_cache_ops", 1);
+        emit(&mut out, vec![format!("cache {}", random_cache_ops(&mut cr, a.thorough))]);
+    }
+    // eviction at the real capacity
+    {
+        let mut ops = String::new();
+        for k in 0..40u64 {
+            ops.push_str(&format!("i{}.{}.0.{}.1;", 1 + k % 3, 10 + k, 500 + k));
+        }
+        ops.push_str("r500;r539;s");
+        out.stat("kind_cache_ops", 1);
+        emit(&mut out, vec![format!("cache {}", ops)]);
+    }
+
+    // ---- 5. the random mix
+    let n_cases = if a.thorough { 15000 } else { 300 };
+    for k in 0..n_cases {
+        let mut cr = r.fork();
+        let (_, c, d) = base(&mut cr, false);
         let root = c.0.clone();
         let mut ops = Vec::new();
-        match id % 7 {
+        match k % 7 {
             0 => {
                 out.stat("kind_honest_then_resume", 1);
                 ops.push(hs_line(&root, &c, &d, None, ""));
@@ -516,44 +1040,12 @@ pub fn gen(a: &Args) -> String {
                 ops.push("again".to_string());
             }
             1 => {
-                out.stat("kind_chain_defect", 1);
-                // a defect on the controller's or the device's chain
-                let on_ctl = cr.chance(2, 3);
-                let mut cc = c.clone();
-                let mut dd = d.clone();
-                let mut droot: Option<Rec> = None;
-                let mut extra = String::new();
-                if cr.chance(1, 6) {
-                    // the node does not hold the private key its NOC certifies
-                    extra = format!("{}=5", if on_ctl { "ckey" } else { "dkey" });
-                    out.stat(&format!("defect_{}_wrong_op_key", if on_ctl { "ctl" } else { "dev" }), 1);
-                } else {
-                    let t = if on_ctl { &mut cc } else { &mut dd };
-                    let name = match cr.below(14) {
-                        0 => { t.2.fl = Some(cr.below(512) as u16); "sig_flip" }
-                        1 => { t.2.i = vec![Attr::Root(99), Attr::Fab(fab)]; "issuer_name" }
-                        2 => { t.2.na = 1000; "expired" }
-                        3 => { t.2.bc = Some((true, None)); "leaf_is_ca" }
-                        4 => { t.2.ku = Some(0x20); "leaf_no_digsig" }
-                        5 => { if let Some(i) = t.1.as_mut() { i.ku = Some(0x40); "ca_no_keycertsign" } else { t.2.eku = Some(vec![1]); "leaf_eku" } }
-                        6 => { t.2.cr = 1; "critical_ext" }
-                        7 => { t.2.s.retain(|a| !matches!(a, Attr::Node(_))); t.2.s.insert(0, Attr::Other(5)); "no_node_id" }
-                        8 => { for a in t.2.s.iter_mut() { if let Attr::Fab(v) = a { *v ^= 1; } } "fabric_mismatch" }
-                        9 => { t.2.s.insert(0, Attr::Ica(66)); t.2.bc = Some((true, None)); t.2.ku = Some(0x21); "ca_leaf_with_node_id" }
-                        10 => { t.2.sg = Some(5); "signed_by_other_key" }
-                        11 => { t.2.ak = Some(200); "akid" }
-                        12 => { t.2.tb = true; "tbs_altered" }
-                        _ => {
-                            // the other side trusts a different root key for the same fabric id
-                            let mut rr = root.clone();
-                            rr.pk = 5; rr.sk = Some(5); rr.ak = Some(5); rr.sg = Some(5);
-                            droot = Some(rr);
-                            "other_root"
-                        }
-                    };
-                    out.stat(&format!("defect_{}_{}", if on_ctl { "ctl" } else { "dev" }, name), 1);
-                }
-                ops.push(hs_line(&root, &cc, &dd, droot.as_ref(), &extra));
+                out.stat("kind_wrong_op_key", 1);
+                // the node does not hold the private key its NOC certifies
+                let on_ctl = cr.chance(1, 2);
+                let extra = format!("{}=5", if on_ctl { "ckey" } else { "dkey" });
+                out.stat(&format!("defect_{}_wrong_op_key", if on_ctl { "ctl" } else { "dev" }), 1);
+                ops.push(hs_line(&root, &c, &d, None, &extra));
             }
             2 => {
                 out.stat("kind_mutation_full", 1);
@@ -581,7 +1073,7 @@ pub fn gen(a: &Args) -> String {
                 ops.push(format!("again {}", random_sched(&mut cr, &mut out)));
             }
         }
-        run_case(&mut out, &Case { id, kind: "case".into(), ops });
+        emit(&mut out, ops);
     }
     out.finish()
 }
